@@ -118,6 +118,8 @@ Print Assumptions C15_decoder_is_the_source.
    same reader afterwards, the same sizes requested and the same bytes taken. *)
 Theorem C15_stream_decoder_is_the_source :
   g_vb_read_prog = vb_read_prog /\
-  forall s, drop_count (run_vbread vb_read_prog s) = vb_stream s.
-Proof. split; [exact sync_vb_read_prog|exact vb_read_is_prog]. Qed.
+  (forall s, drop_count (run_vbread vb_read_prog s) = vb_stream s) /\
+  (* and the count it returns is the number of bytes it took from the reader *)
+  (forall s o s' t g n, run_vbread vb_read_prog s = Some (o, s', t, g, n) -> n = List.length g).
+Proof. split; [exact sync_vb_read_prog|split; [exact vb_read_is_prog|exact vb_read_count]]. Qed.
 Print Assumptions C15_stream_decoder_is_the_source.
